@@ -607,3 +607,94 @@ func ruleWatchSurvivesErrors(c *core.Ctx) {
 		c.Undecided(rule, "watch path", 0, "no function between the timer and generateImpl found")
 	}
 }
+
+// T7: what every regeneration starts from stays the same. The watcher hands the same configuration map to each
+// regeneration (it is captured by the scheduled closure). A regeneration that writes to it — deletes an applied key,
+// stores a default — changes the input of all later regenerations, so after edits stop the output is no longer what a
+// one-shot run with the same command line produces. The map parameters of generateImpl, followed through the module
+// functions they are passed to, are never stored into, deleted from or cleared.
+func ruleWatchInputsNotMutated(c *core.Ctx) {
+	const rule = "T7"
+	c.Rule(rule, "the map/slice arguments generateImpl receives from the watcher (the --config overrides) are not mutated by generateImpl or any module function they are handed to: no element store, delete, clear or append-assign through the parameter", 2)
+	gi, gd, _ := c.Func("internal/cmd", "generateImpl")
+	if gi == nil || gd == nil {
+		c.Undecided(rule, "anchor/internal/cmd.generateImpl", 0, "anchor function not found")
+		return
+	}
+	type tparam struct {
+		d   *ast.FuncDecl
+		obj types.Object
+	}
+	var work []tparam
+	seen := map[types.Object]bool{}
+	addParams := func(d *ast.FuncDecl, idx int) {
+		p := c.DeclPkg(d)
+		if p == nil {
+			return
+		}
+		objs := paramObjs(p.TypesInfo, d)
+		if idx < 0 {
+			for _, o := range objs {
+				if o == nil {
+					continue
+				}
+				switch o.Type().Underlying().(type) {
+				case *types.Map, *types.Slice:
+					if !seen[o] {
+						seen[o] = true
+						work = append(work, tparam{d, o})
+					}
+				}
+			}
+			return
+		}
+		if idx < len(objs) && objs[idx] != nil && !seen[objs[idx]] {
+			seen[objs[idx]] = true
+			work = append(work, tparam{d, objs[idx]})
+		}
+	}
+	addParams(gd, -1)
+	n := 0
+	for len(work) > 0 {
+		tp := work[len(work)-1]
+		work = work[:len(work)-1]
+		info := c.DeclPkg(tp.d).TypesInfo
+		n++
+		key := c.FuncName(tp.d) + "/parameter " + tp.obj.Name()
+		var bad ast.Node
+		why := ""
+		ast.Inspect(tp.d.Body, func(x ast.Node) bool {
+			switch s := x.(type) {
+			case *ast.AssignStmt:
+				for _, l := range s.Lhs {
+					if ix, ok := ast.Unparen(l).(*ast.IndexExpr); ok && identObj(info, ix.X) == tp.obj && bad == nil {
+						bad, why = s, "stores into "+tp.obj.Name()+"[…]"
+					}
+				}
+			case *ast.CallExpr:
+				if id, ok := ast.Unparen(s.Fun).(*ast.Ident); ok {
+					if _, isB := info.Uses[id].(*types.Builtin); isB && (id.Name == "delete" || id.Name == "clear") && len(s.Args) >= 1 && identObj(info, s.Args[0]) == tp.obj && bad == nil {
+						bad, why = s, id.Name+"("+tp.obj.Name()+", …)"
+					}
+				}
+				// handed on to another function of the module
+				if f := core.Callee(info, s); f != nil && core.InModule(f) {
+					if cd := c.Decl(f.Origin()); cd != nil {
+						for i, a := range s.Args {
+							if identObj(info, a) == tp.obj {
+								addParams(cd, i)
+							}
+						}
+					}
+				}
+			}
+			return true
+		})
+		pos := tp.d.Pos()
+		if bad != nil {
+			pos = bad.Pos()
+		}
+		c.Check(bad == nil, rule, key, pos, "read only",
+			why+": the watcher passes the same map to every regeneration, so the overrides given on the command line are gone (or altered) from the second regeneration on and the output no longer equals a one-shot run")
+	}
+}
